@@ -243,6 +243,9 @@ impl<'a> P<'a> {
                     self.nx();
                     let target = match &lhs {
                         Ast::Read(n) => n.clone(),
+                        // no left operand at all: that is a missing operand (ill-formed, already noted), not a
+                        // question of what may be assigned to
+                        Ast::Missing => "<missing>".to_string(),
                         _ => {
                             self.set_unc("assignment target is not a bare identifier");
                             "<non-identifier>".to_string()
